@@ -157,6 +157,24 @@ def impl(case):
     if w.bounding_box is not None and w.bounding_box.order == "C" and res["box_default_after_eval"] is not None:
         res["box_default_after_eval"] = res["box_default_after_eval"][::-1]     # its own order is last axis first
     res["box_eq_after_eval"] = None if (case["box"] is None or (how != "setter" and n > 1)) else bool(w.bounding_box == _box_arg(case["box"]))
+    # two WCSs built from one and the same model instance (the single-model form of the constructor): a box given to one of them is
+    # not the other's, nor the caller's model's
+    if case["box"] is not None and case.get("nsteps", 1) == 1:
+        try:
+            t_ = None
+            for a_, b_ in case["ab"]:
+                s_ = models.Scale(a_) | models.Shift(b_)
+                t_ = s_ if t_ is None else t_ & s_
+            wa, wb = gw.WCS(t_, "detector", "world"), gw.WCS(t_, "detector", "world")
+            wa.bounding_box = _box_arg(case["box"])
+            try:
+                mb = t_.bounding_box
+            except NotImplementedError:
+                mb = None
+            res["shared"] = {"other_box": _read_box(wb), "model_has_box": mb is not None,
+                             "other_vals": [[_cf(v) for v in _call(wb, pt, case)] for pt in case["pts"]]}
+        except Exception as e:
+            res["shared"] = {"err": type(e).__name__ + ":" + str(e)[:80]}
     # array evaluation in the requested shape
     shape = tuple(case["shape"])
     cols = [np.array([pt[i] for pt in case["pts"]], dtype=float).reshape(shape) for i in range(n)]
@@ -211,6 +229,13 @@ def oracle(case, res):
                         (pt, box, masking, [_dec(x) for x in v], [_dec(x) for x in p])))
         if len(out) > 3:
             break
+    sh = res.get("shared")
+    if sh is not None:
+        if "err" in sh:
+            out.append(("shared", "two WCSs from one model instance: %s" % sh["err"]))
+        elif sh["other_box"] is not None or sh["model_has_box"] or sh["other_vals"] != res["plain"]:
+            out.append(("shared", "a box assigned to one WCS shows on another WCS built from the same model instance (box %s, the caller's model has a box: %s, "
+                                  "evaluation %s the unmasked one)" % (sh["other_box"], sh["model_has_box"], "equals" if sh["other_vals"] == res["plain"] else "differs from")))
     if not res["scalar_out"]:
         out.append(("shape", "scalar input did not give scalar output"))
     if "arr_err" in res:
